@@ -137,14 +137,16 @@ class AttestationsDB(Database):
         assert int(database_version) >= 0
         idatabase_version = int(database_version) or self.LATEST_DB_VERSION
 
+        script = ""
         if idatabase_version < self.LATEST_DB_VERSION:
             while idatabase_version < self.LATEST_DB_VERSION:
                 upgrade_script = self.get_upgrade_script(current_version=idatabase_version)
                 if upgrade_script:
-                    self.executescript(upgrade_script)
+                    script += upgrade_script
                 idatabase_version += 1
 
-        self.executescript(self.get_schema(idatabase_version))
+        # Upgrade and version bump in one transaction: a crash must not leave an upgraded table with the old version.
+        self.executescript(f"BEGIN;\n{script}{self.get_schema(idatabase_version)}COMMIT;\n")
         self.commit()
 
         return self.LATEST_DB_VERSION
